@@ -170,3 +170,340 @@ Proof.
   - now injection E as <-.
   - destruct (ustep p l s) as [s1|] eqn:E1; [|discriminate]. eapply IH; [|exact E]. eapply r_step; eauto.
 Qed.
+
+(* ------------------------------------------------------------------ 3. timed runs *)
+Section Timed.
+Local Open Scope Z_scope.
+
+Ltac zb :=
+  repeat match goal with
+         | H : (_ <? _) = true |- _ => apply Z.ltb_lt in H
+         | H : (_ <? _) = false |- _ => apply Z.ltb_ge in H
+         | H : (_ <=? _) = true |- _ => apply Z.leb_le in H
+         | H : (_ <=? _) = false |- _ => apply Z.leb_gt in H
+         end.
+
+Ltac proj := cbn [res t_ret t_int t_kill int_ok t_exit trace].
+
+Ltac split_ifs :=
+  repeat match goal with
+         | |- context [if ?b then _ else _] => destruct b eqn:?
+         end.
+
+(* a command that finishes more than one slack before the context expires is not affected:
+   Wait's own result, no signal, returns within two slacks of its exit *)
+Lemma early_unaffected sigma p o ee :
+  bounded sigma o -> tE p = Some ee ->
+  match tC p with Some c => ee + sigma < c | None => True end ->
+  res (wos p o) = RWait /\ t_int (wos p o) = None /\ t_kill (wos p o) = None /\
+  exists r, t_ret (wos p o) = Some r /\ ee <= r <= ee + 2 * sigma.
+Proof.
+  intros (Bw & Bc & Bs & Ba & Bt & Bk & Br) HE HC. unfold wos. rewrite HE. cbn [option_map].
+  destruct (tC p) as [c|]; cbn [option_map decide_first]; cbn in HC.
+  - destruct (ee + dw o <? c + dc o) eqn:E1; [|zb; exfalso; lia].
+    proj. split; [reflexivity|]. split; [reflexivity|]. split; [reflexivity|]. eexists. split; [reflexivity | ]. lia.
+  - proj. split; [reflexivity|]. split; [reflexivity|]. split; [reflexivity|]. eexists. split; [reflexivity | lia].
+Qed.
+
+(* a command that blocks is interrupted within two slacks of the expiry of the context *)
+Lemma blocked_interrupted sigma p o c :
+  bounded sigma o -> tE p = None -> tC p = Some c ->
+  exists ti, t_int (wos p o) = Some ti /\ int_ok (wos p o) = true /\ c <= ti <= c + 2 * sigma.
+Proof.
+  intros (Bw & Bc & Bs & Ba & Bt & Bk & Br) HE HC. unfold wos. rewrite HE, HC. cbn [option_map decide_first min_opt].
+  exists (c + dc o + ds o). split_ifs; repeat match goal with |- context [match ?x with _ => _ end] => destruct x end;
+    proj; (split; [reflexivity|]); (split; [reflexivity|]); lia.
+Qed.
+
+(* a command that ignores the interrupt is killed killDelay after the context expired, at most
+   five slacks late *)
+Lemma kill_escalation sigma p o c :
+  bounded sigma o -> tE p = None -> tI p = None -> tC p = Some c -> 0 < tK p ->
+  exists tk, t_kill (wos p o) = Some tk /\ c + tK p <= tk <= c + tK p + 5 * sigma /\
+             t_exit (wos p o) = Some tk /\ res (wos p o) = RCtx.
+Proof.
+  intros (Bw & Bc & Bs & Ba & Bt & Bk & Br) HE HI HC HK. unfold wos. rewrite HE, HI, HC. cbn [option_map decide_first min_opt].
+  destruct (tK p <=? 0) eqn:E; [zb; exfalso; lia|]. proj.
+  eexists. split; [reflexivity|]. split; [lia|]. split; reflexivity.
+Qed.
+
+(* with a deadline and a positive kill delay waitOrStop always returns, no later than seven
+   slacks after the later of the command's own exit and the kill time *)
+Lemma returns_by sigma p o c :
+  bounded sigma o -> tC p = Some c -> 0 < tK p -> 0 <= sigma ->
+  exists r, t_ret (wos p o) = Some r /\
+            r <= Z.max (match tE p with Some ee => ee | None => c + tK p end) (c + tK p) + 7 * sigma.
+Proof.
+  intros (Bw & Bc & Bs & Ba & Bt & Bk & Br) HC HK Hs. unfold wos. rewrite HC.
+  destruct (tK p <=? 0) eqn:EK; [zb; exfalso; lia|].
+  destruct (tE p) as [ee|]; destruct (tI p) as [d|]; cbn [option_map decide_first min_opt];
+    split_ifs; zb; cbn [t_ret]; eexists; (split; [reflexivity|]); lia.
+Qed.
+
+(* a command that exits d after the interrupt, with d + slack < killDelay, is not killed *)
+Lemma cooperative_not_killed sigma p o c d :
+  bounded sigma o -> tE p = None -> tI p = Some d -> tC p = Some c -> 0 <= d -> d + sigma < tK p ->
+  t_kill (wos p o) = None /\ res (wos p o) = RCtx /\
+  exists r, t_ret (wos p o) = Some r /\ r <= c + d + 4 * sigma.
+Proof.
+  intros (Bw & Bc & Bs & Ba & Bt & Bk & Br) HE HI HC Hd HK. unfold wos. rewrite HE, HI, HC. cbn [option_map decide_first min_opt].
+  destruct (tK p <=? 0) eqn:EK; [zb; exfalso; lia|].
+  destruct (c + dc o + ds o + d + dw o <? c + dc o + ds o + da o + tK p + dt o) eqn:E1; [|zb; exfalso; lia].
+  proj. split; [reflexivity|]. split; [reflexivity|]. eexists. split; [reflexivity | lia].
+Qed.
+
+(* the timed run agrees with the interleaving system on attribution *)
+Lemma attribution_timed p o : res (wos p o) = RCtx <-> (int_ok (wos p o) = true /\ t_ret (wos p o) <> None).
+Proof.
+  unfold wos.
+  repeat match goal with
+         | |- context [match ?x with _ => _ end] => destruct x eqn:?
+         end; cbn; split; try tauto; try discriminate; try (intros [? ?]; congruence); try (intros _; split; congruence).
+Qed.
+End Timed.
+
+Section T2.
+Local Open Scope Z_scope.
+
+(* ---- every timed run is one of the interleavings of the finite system, with the same result *)
+
+Definition exit_ok (u : uparams) (l : ulabel) : bool :=
+  match l with LSelfExit => self_exit u | LIntExit => int_exit u | _ => false end.
+
+Definition done_ctx : ustate -> Prop := fun s => uw s = WDoneCtx /\ uh s = HDone.
+Definition done_wait : ustate -> Prop := fun s => uw s = WDoneWait /\ uh s = HDone.
+
+Lemma path_early u : self_exit u = true ->
+  exists s, uexec u [LSelfExit; LWaitRet; LRendezvous] uinit = Some s /\ done_wait s.
+Proof. intro H. cbn. rewrite H. cbn. eexists. split; [reflexivity|]. now split. Qed.
+
+Lemma path_reaped u : self_exit u = true -> has_ctx u = true ->
+  exists s, uexec u [LSelfExit; LWaitRet; LCtxFire; LSelCtx; LSignal; LRendezvous] uinit = Some s /\ done_wait s.
+Proof. intros H1 H2. cbn. rewrite H1. cbn. rewrite H2. cbn. eexists. split; [reflexivity|]. now split. Qed.
+
+Lemma path_nokill u l : has_ctx u = true -> exit_ok u l = true ->
+  exists s, uexec u ([LCtxFire; LSelCtx; LSignal; LArm] ++ [l; LWaitRet; LRendezvous]) uinit = Some s /\ done_ctx s.
+Proof.
+  intros H1 H2. destruct u as [hc kp se ie]. cbn in H1. subst hc.
+  destruct l; cbn in H2; try discriminate; subst; destruct kp; cbn; eexists; (split; [reflexivity|]); now split.
+Qed.
+
+Lemma path_kill u l : has_ctx u = true -> kd_pos u = true -> (exit_ok u l = true \/ l = LKillExit) ->
+  exists s, uexec u ([LCtxFire; LSelCtx; LSignal; LArm] ++ [LTimerFire; LSelTimer; LKill; l; LWaitRet; LRendezvous]) uinit = Some s /\ done_ctx s.
+Proof.
+  intros H1 H2 H3. destruct u as [hc kp se ie]. cbn in H1, H2. subst hc kp.
+  destruct H3 as [H3| ->]; [destruct l; cbn in H3; try discriminate; subst|]; cbn; eexists; (split; [reflexivity|]); now split.
+Qed.
+
+Lemma exit_label_ok p x :
+  (tE p <> None \/ tI p <> None) -> (tE p = None -> True) ->
+  (match tE p with Some ee => ee <=? x | None => false end = true \/ tI p <> None) ->
+  exit_ok (uparams_of p) (exit_label (tE p) x LIntExit) = true.
+Proof.
+  intros _ _ H. unfold exit_label, uparams_of. destruct (tE p) as [ee|] eqn:E.
+  - destruct (ee <=? x) eqn:L; cbn; [reflexivity|]. destruct H as [H|H]; [discriminate|]. now destruct (tI p).
+  - cbn. destruct H as [H|H]; [discriminate|]. now destruct (tI p).
+Qed.
+
+Lemma min_opt_some a b x : min_opt a b = Some x ->
+  (match a with Some ee => ee <=? x | None => false end = true) \/ b <> None.
+Proof.
+  destruct a as [ee|], b as [y|]; cbn; intro H; try discriminate; injection H as <-.
+  - destruct (Z.leb_spec ee (Z.min ee y)); [now left | right; discriminate].
+  - left. apply Z.leb_refl.
+  - right. discriminate.
+Qed.
+
+Lemma decide_first_FA a b t x : decide_first a b t = FA x -> a <> None.
+Proof. destruct a; [discriminate|]. destruct b; discriminate. Qed.
+Lemma decide_first_FB a b t x : decide_first a b t = FB x -> b <> None.
+Proof. destruct b; [discriminate|]. destruct a; discriminate. Qed.
+
+Lemma wos_trace_valid p o : res (wos p o) <> RNever ->
+  exists s, uexec (uparams_of p) (trace (wos p o)) uinit = Some s /\
+            uw s = (match res (wos p o) with RCtx => WDoneCtx | _ => WDoneWait end) /\ uh s = HDone.
+Proof.
+  unfold wos.
+  destruct (decide_first (option_map (fun x => x + dw o) (tE p)) (option_map (fun c => c + dc o) (tC p)) (tie1 o)) as [|tw|c1] eqn:D1;
+    cbn [res trace]; intro H.
+  - congruence.
+  - apply decide_first_FA in D1.
+    assert (SE : self_exit (uparams_of p) = true) by (cbn; destruct (tE p); [reflexivity | now contradiction D1]).
+    destruct (path_early _ SE) as (s & E & W & Hh). eauto.
+  - apply decide_first_FB in D1.
+    assert (HC : has_ctx (uparams_of p) = true) by (cbn; destruct (tC p); [reflexivity | now contradiction D1]).
+    set (ti := c1 + ds o) in *.
+    destruct (match option_map (fun x => x + dw o) (tE p) with
+              | Some tw => if tw <? ti then true else if ti <? tw then false else tie2 o
+              | None => false end) eqn:RP.
+    + assert (SE : self_exit (uparams_of p) = true) by (cbn; destruct (tE p); [reflexivity | discriminate]).
+      cbn [res trace] in *. destruct (path_reaped _ SE HC) as (s & E & W & Hh). eauto.
+    + set (ex1 := min_opt (tE p) (option_map (fun d => ti + d) (tI p))) in *.
+      assert (EX : forall x, ex1 = Some x -> exit_ok (uparams_of p) (exit_label (tE p) x LIntExit) = true).
+      { intros x Hx. apply exit_label_ok; [| trivial |].
+        - unfold ex1 in Hx. destruct (tE p); [left; discriminate|]. destruct (tI p); [right; discriminate | discriminate].
+        - apply min_opt_some in Hx. destruct Hx as [Hx|Hx]; [now left | right]. destruct (tI p); [discriminate | now contradiction Hx]. }
+      destruct (tK p <=? 0) eqn:EK.
+      * destruct ex1 as [x|] eqn:Ex1; cbn [option_map res trace] in *; [|congruence].
+        destruct (path_nokill _ _ HC (EX x eq_refl)) as (s & E & W & Hh). eauto.
+      * assert (KP : kd_pos (uparams_of p) = true) by (cbn; apply Z.ltb_lt; apply Z.leb_gt in EK; lia).
+        destruct (decide_first (option_map (fun x => x + dw o) ex1) (Some (ti + da o + tK p + dt o)) (tie3 o)) as [|tw|tf] eqn:D2;
+          cbn [res trace] in *.
+        -- destruct ex1 as [x|] eqn:Ex1.
+           ++ destruct (x <=? ti + da o + tK p + dt o + dk o).
+              ** destruct (path_kill _ _ HC KP (or_introl (EX x eq_refl))) as (s & E & W & Hh). eauto.
+              ** destruct (path_kill _ LKillExit HC KP (or_intror eq_refl)) as (s & E & W & Hh). eauto.
+           ++ destruct (path_kill _ LKillExit HC KP (or_intror eq_refl)) as (s & E & W & Hh). eauto.
+        -- apply decide_first_FA in D2. destruct ex1 as [x|] eqn:Ex1; [|now contradiction D2].
+           destruct (path_nokill _ _ HC (EX x eq_refl)) as (s & E & W & Hh). eauto.
+        -- destruct ex1 as [x|] eqn:Ex1.
+           ++ destruct (x <=? ti + da o + tK p + dt o + dk o).
+              ** destruct (path_kill _ _ HC KP (or_introl (EX x eq_refl))) as (s & E & W & Hh). eauto.
+              ** destruct (path_kill _ LKillExit HC KP (or_intror eq_refl)) as (s & E & W & Hh). eauto.
+           ++ destruct (path_kill _ LKillExit HC KP (or_intror eq_refl)) as (s & E & W & Hh). eauto.
+Qed.
+End T2.
+
+Section T3.
+Local Open Scope Z_scope.
+Ltac zb :=
+  repeat match goal with
+         | H : (_ <? _) = true |- _ => apply Z.ltb_lt in H
+         | H : (_ <? _) = false |- _ => apply Z.ltb_ge in H
+         | H : (_ <=? _) = true |- _ => apply Z.leb_le in H
+         | H : (_ <=? _) = false |- _ => apply Z.leb_gt in H
+         end.
+Ltac proj := cbn [res t_ret t_int t_kill int_ok t_exit trace].
+
+(* ------------------------------------------------------------------ 4. the report *)
+
+Lemma timed_out_rule neg : cmd_exec_verdict true true neg = XTimedOut timed_out_message.
+Proof. reflexivity. Qed.
+
+Lemma not_timed_out_rule err neg : cmd_exec_verdict err false neg <> XTimedOut timed_out_message.
+Proof. destruct err, neg; discriminate. Qed.
+
+Lemma blocked_result sigma p o c :
+  bounded sigma o -> tE p = None -> tC p = Some c -> 0 < tK p ->
+  match tI p with Some d => 0 <= d | None => True end ->
+  res (wos p o) = RCtx /\ exists r, t_ret (wos p o) = Some r /\ c <= r.
+Proof.
+  intros (Bw & Bc & Bs & Ba & Bt & Bk & Br) HE HC HK HI. unfold wos. rewrite HE, HC.
+  cbn [option_map decide_first min_opt].
+  destruct (tK p <=? 0) eqn:EK; [zb; exfalso; lia|].
+  destruct (tI p) as [d|]; cbn [option_map decide_first min_opt].
+  - destruct (c + dc o + ds o + d + dw o <? c + dc o + ds o + da o + tK p + dt o) eqn:E1; proj.
+    + split; [reflexivity|]. eexists. split; [reflexivity | lia].
+    + destruct (c + dc o + ds o + da o + tK p + dt o <? c + dc o + ds o + d + dw o) eqn:E2; [|destruct (tie3 o)]; proj;
+        (split; [reflexivity|]); eexists; (split; [reflexivity|]); lia.
+  - proj. split; [reflexivity|]. eexists. split; [reflexivity | lia].
+Qed.
+
+(* a foreground command that never exits by itself, under a deadline: exec fails with the
+   timed-out message, whether or not the line was negated *)
+Lemma blocked_reports_timed_out sigma p o c wait_ok neg :
+  bounded sigma o -> tE p = None -> tC p = Some c -> 0 < tK p ->
+  match tI p with Some d => 0 <= d | None => True end ->
+  fg_exec p o wait_ok neg = Some (XTimedOut timed_out_message).
+Proof.
+  intros B HE HC HK HI. destruct (blocked_result sigma p o c B HE HC HK HI) as (R & r & T & L).
+  unfold fg_exec. rewrite T, R, HC. apply Z.leb_le in L. rewrite L. reflexivity.
+Qed.
+
+(* whenever exec reports a failure after the context has expired, it is the timed-out one *)
+Lemma timed_out_message p o wait_ok neg v :
+  fg_exec p o wait_ok neg = Some v ->
+  (match res (wos p o) with RCtx => true | _ => negb wait_ok end) = true ->
+  (exists c r, tC p = Some c /\ t_ret (wos p o) = Some r /\ c <= r) ->
+  v = XTimedOut timed_out_message.
+Proof.
+  unfold fg_exec. intros H E (c & r & HC & T & L). rewrite T, HC, E in H. apply Z.leb_le in L. rewrite L in H.
+  injection H as <-. reflexivity.
+Qed.
+
+(* ------------------------------------------------------------------ RunT + waitOrStop *)
+
+Lemma fg_kill_delay_grace until : fg_kill_delay until = grace until.
+Proof. reflexivity. Qed.
+
+(* A blocked foreground command is interrupted grace_reserve grace periods before the deadline. *)
+Lemma runt_interrupt_time sigma now eps D i o :
+  bounded sigma o ->
+  exists ti, t_int (wos (fg_params now eps D None i) o) = Some ti /\ int_ok (wos (fg_params now eps D None i) o) = true /\
+             D + eps - grace_reserve * grace (D - now) <= ti <= D + eps - grace_reserve * grace (D - now) + 2 * sigma.
+Proof.
+  intro B. destruct (blocked_interrupted sigma (fg_params now eps D None i) o (ctx_deadline now eps D) B eq_refl eq_refl) as (ti & T & K & L).
+  exists ti. split; [exact T|]. split; [exact K|]. destruct (grace_arith now eps D) as [A _]. lia.
+Qed.
+
+(* One that ignores the interrupt is killed one grace period later. *)
+Lemma runt_kill_time sigma now eps D o :
+  bounded sigma o ->
+  exists tk, t_kill (wos (fg_params now eps D None None) o) = Some tk /\
+             D + eps - (grace_reserve - 1) * grace (D - now) <= tk <= D + eps - (grace_reserve - 1) * grace (D - now) + 5 * sigma /\
+             t_exit (wos (fg_params now eps D None None) o) = Some tk.
+Proof.
+  intro B. pose proof (grace_ge_min (D - now)) as G.
+  assert (HK : 0 < tK (fg_params now eps D None None)).
+  { cbn [tK fg_params]. rewrite fg_kill_delay_grace. assert (0 < min_grace) by reflexivity. lia. }
+  destruct (kill_escalation sigma (fg_params now eps D None None) o (ctx_deadline now eps D) B eq_refl eq_refl eq_refl HK) as (tk & T & L & X & _).
+  exists tk. split; [exact T|]. split; [|exact X]. cbn [tK fg_params] in L. rewrite fg_kill_delay_grace in L.
+  destruct (grace_arith now eps D) as [A _]. lia.
+Qed.
+
+(* Every foreground command has returned seven slacks after the later of its own exit and the
+   kill time, which is (grace_reserve - 1) grace periods before the deadline. *)
+Lemma runt_returns_by sigma now eps D e i o :
+  bounded sigma o -> 0 <= sigma ->
+  exists r, t_ret (wos (fg_params now eps D e i) o) = Some r /\
+            r <= Z.max (match e with Some ee => ee | None => 0 end) (D + eps - (grace_reserve - 1) * grace (D - now)) + 7 * sigma.
+Proof.
+  intros B Hs. pose proof (grace_ge_min (D - now)) as G.
+  assert (HK : 0 < tK (fg_params now eps D e i)).
+  { cbn [tK fg_params]. rewrite fg_kill_delay_grace. assert (0 < min_grace) by reflexivity. lia. }
+  destruct (returns_by sigma (fg_params now eps D e i) o (ctx_deadline now eps D) B eq_refl HK Hs) as (r & T & L).
+  exists r. split; [exact T|]. cbn [tK tE fg_params] in L. rewrite fg_kill_delay_grace in L.
+  destruct (grace_arith now eps D) as [A _]. destruct e; lia.
+Qed.
+
+(* and therefore by the deadline, when the slack is small against the grace period *)
+Lemma runt_done_by_deadline sigma now eps D e i o :
+  bounded sigma o -> 0 <= sigma -> 2 <= grace_reserve -> eps + 7 * sigma <= min_grace ->
+  exists r, t_ret (wos (fg_params now eps D e i) o) = Some r /\
+            r <= Z.max (match e with Some ee => ee + 7 * sigma | None => D end) D.
+Proof.
+  intros B Hs Hr He. destruct (runt_returns_by sigma now eps D e i o B Hs) as (r & T & L).
+  exists r. split; [exact T|]. pose proof (grace_ge_min (D - now)) as G.
+  assert ((grace_reserve - 1) * grace (D - now) >= grace (D - now)) by nia.
+  destruct e; lia.
+Qed.
+
+(* A command that finishes more than a slack before the context expires is unaffected. *)
+Lemma runt_early_unaffected sigma now eps D ee i o :
+  bounded sigma o -> 0 <= eps -> ee + sigma < D - grace_reserve * grace (D - now) ->
+  res (wos (fg_params now eps D (Some ee) i) o) = RWait /\ t_int (wos (fg_params now eps D (Some ee) i) o) = None /\
+  t_kill (wos (fg_params now eps D (Some ee) i) o) = None /\
+  exists r, t_ret (wos (fg_params now eps D (Some ee) i) o) = Some r /\ ee <= r <= ee + 2 * sigma.
+Proof.
+  intros B He H. apply (early_unaffected sigma (fg_params now eps D (Some ee) i) o ee B eq_refl).
+  cbn [tC fg_params]. destruct (grace_arith now eps D) as [A _]. lia.
+Qed.
+
+Lemma runt_blocked_timed_out sigma now eps D i o wait_ok neg :
+  bounded sigma o -> match i with Some d => 0 <= d | None => True end ->
+  fg_exec (fg_params now eps D None i) o wait_ok neg = Some (XTimedOut timed_out_message).
+Proof.
+  intros B Hi. pose proof (grace_ge_min (D - now)) as G.
+  apply (blocked_reports_timed_out sigma _ o (ctx_deadline now eps D) wait_ok neg B eq_refl eq_refl); [|exact Hi].
+  cbn [tK fg_params]. rewrite fg_kill_delay_grace. assert (0 < min_grace) by reflexivity. lia.
+Qed.
+
+Example oracle_example : bounded 1000000 {| dw := 1000; dc := 0; ds := 1000000; da := 5; dt := 7; dk := 0; dr := 10; tie1 := true; tie2 := false; tie3 := true |}.
+Proof. unfold bounded. cbn. lia. Qed.
+
+Example wos_example :
+  (* deadline 1 s away, the command ignores the interrupt: interrupted at 0.8 s, killed at 0.9 s *)
+  let r := wos (fg_params 0 0 1000000000 None None) {| dw := 0; dc := 0; ds := 0; da := 0; dt := 0; dk := 0; dr := 0; tie1 := true; tie2 := true; tie3 := true |} in
+  t_int r = Some 800000000 /\ t_kill r = Some 900000000 /\ t_ret r = Some 900000000 /\ res r = RCtx.
+Proof. vm_compute. repeat split. Qed.
+End T3.
